@@ -156,6 +156,8 @@ def real_specs(ck, rng):
         s['tag'] = 'real-matcher'
         # every third mosaic is aligned in ONE user-supplied common tangent plane (ref_tpwcs) for all images
         s['common_tp'] = (t % 3 == 1)
+        # every fourth mosaic with a reference table is aligned twice: relative pass, then absolute pass
+        s['two_pass'] = (t % 4 == 3 and s['ref']['mode'] == 'table' and all(im['kind'] == 'good' for im in s['images']))
         if s['common_tp']:
             # sparse reference: most rows of the final catalog are rows APPENDED from earlier images, so later images
             # are matched against appended rows (their positions must be the corrected ones)
@@ -175,6 +177,11 @@ def run_real(spec):
         reftp = None
         if spec.get('common_tp'):
             reftp = T['FITSWCSCorrector'](A.mkwcs((A.NEAR[0] + 2e-4, A.NEAR[1] - 1e-4), 33.0))
+        if spec.get('two_pass'):
+            # a relative pass first (no reference catalog), then the absolute pass on the SAME, already corrected,
+            # corrector objects
+            T['align_wcs'](B['cors'], refcat=None, ref_tpwcs=reftp, expand_refcat=True, enforce_user_order=spec['enforce'],
+                           fitgeom=spec['fitgeom'], minobj=spec['minobj'], match=m)
         out = T['align_wcs'](B['cors'], refcat=B['refcat'], ref_tpwcs=reftp, expand_refcat=spec['expand'],
                              enforce_user_order=spec['enforce'], fitgeom=spec['fitgeom'], minobj=spec['minobj'],
                              match=m)
